@@ -193,6 +193,11 @@ func c09Tunnel1(m *MultiFixture, tn c09Tunnel) (TSnapshot, []byte, bool, error) 
 	u := m.Users[tn.User]
 	env := m.Env(u, tn.Transport)
 	env.W = 20 * time.Second
+	if u.Browser != nil && tn.Seed%2 == 0 {
+		// a browser-based client sends its web session cookie along: several tunnels of one user then
+		// present the same session at the same time
+		env.Headers = append(append(Hdr{}, env.Headers...), [2]string{"Cookie", u.Browser.cookieHeader()})
+	}
 	upto := 4
 	switch tn.Action {
 	case "connect-disconnect":
